@@ -1,4 +1,5 @@
 import WK.Spec.C17
+import WK.Gen.C17
 /-
   C17 — executable model of the channel-migration commands as the slot FSM
   applies them (pkg/slot/fsm/statemachine.go ApplyBatch →
@@ -114,6 +115,8 @@ def validGuard (g : Guard) : Bool := g.chan != 0 && g.id != 0 && !(g.est == 0 ||
 /-- validateChannelMigrationTaskRuntimeTransition -/
 def validTransition (g : Guard) (rg : RtGuard) (st ph upd comp : Nat) : Bool :=
   validGuard g && rg.chan != 0 &&
+  -- (present only if the extractor finds the check in the current source, see WK.Gen.C17)
+  !(WK.Gen.C17.transitionChecksGuardChannel && g.chan != rg.chan) &&
   !(!validStatus st || !validPhase ph || upd ≤ g.eupd) &&
   !((st == 4 || st == 5 || st == 6) && comp == 0)
 
@@ -526,7 +529,8 @@ def stageCmd (wb : WB) (c : Cmd) : WB × Option Err :=
     else ({ wb with staged := wb.staged ++ [Staged.taskOnly c] }, none)
   | .advance => ({ wb with staged := wb.staged ++ [Staged.taskOnly c] }, none)
   | .setfence =>
-    if !validGuard c.g || c.rg.chan == 0 || !validStatus c.st || !validPhase c.ph || c.reason == 0 || c.funtil == 0 || c.upd ≤ c.g.eupd
+    if !validGuard c.g || c.rg.chan == 0 || (WK.Gen.C17.fenceRequestChecksGuardChannel && c.g.chan != c.rg.chan) ||
+       !validStatus c.st || !validPhase c.ph || c.reason == 0 || c.funtil == 0 || c.upd ≤ c.g.eupd
     then (wb, some .invalid) else ({ wb with staged := wb.staged ++ [Staged.taskMeta c] }, none)
   | .resetfence =>
     if !validTransition c.g c.rg c.st c.ph c.upd 0 || c.now == 0
